@@ -101,7 +101,11 @@ func (t WebsocketTransport) startReader() {
 					// on the next iteration of the for loop.
 					tmp := make([]byte, n)
 					copy(tmp, buffer)
-					t.queue <- tmp
+					select {
+					case t.queue <- tmp:
+					case <-t.closeCtx.Done():
+						return
+					}
 				}
 				if err == io.EOF {
 					break
@@ -177,10 +181,10 @@ func (t *WebsocketTransport) LogTraffic(logFile io.Writer) {
 
 func (t *WebsocketTransport) cleanup(code websocket.StatusCode) error {
 	var err error
-	if t.queue != nil {
-		close(t.queue)
-		t.queue = nil
-	}
+	// The queue is not closed: Close has a value receiver, so it runs on a copy of the transport and may
+	// run more than once (closing a closed channel panics), and the reader goroutine may still be sending.
+	// Cancelling closeCtx below is what ends the reader and unblocks Read.
+	t.queue = nil
 	if t.wsConn != nil {
 		err = t.wsConn.Close(websocket.StatusGoingAway, "Done")
 		t.wsConn = nil
